@@ -367,12 +367,25 @@ pub mod trace {
 
     /// process-wide capture (events of every thread, e.g. the worker threads of an FFI runtime)
     static GLOBAL: std::sync::Mutex<Option<Vec<String>>> = std::sync::Mutex::new(None);
+    static GLOBAL_TIMED: std::sync::Mutex<Option<Vec<(std::time::Instant, String)>>> = std::sync::Mutex::new(None);
 
     pub fn global_capture(on: bool) -> Vec<String> {
         let mut g = GLOBAL.lock().unwrap();
         let old = g.take().unwrap_or_default();
         *g = if on { Some(Vec::new()) } else { None };
         old
+    }
+
+    /// like `global_capture`, with the instant at which each event was emitted
+    pub fn timed_capture(on: bool) -> Vec<(std::time::Instant, String)> {
+        let mut g = GLOBAL_TIMED.lock().unwrap();
+        let old = g.take().unwrap_or_default();
+        *g = if on { Some(Vec::new()) } else { None };
+        old
+    }
+
+    pub fn timed_snapshot() -> Vec<(std::time::Instant, String)> {
+        GLOBAL_TIMED.lock().unwrap().clone().unwrap_or_default()
     }
 
     struct Vis<'a>(&'a mut String);
@@ -419,6 +432,11 @@ pub mod trace {
             if let Ok(mut g) = GLOBAL.try_lock() {
                 if let Some(v) = g.as_mut() {
                     v.push(format!("{} {}", event.metadata().level(), s));
+                }
+            }
+            if let Ok(mut g) = GLOBAL_TIMED.lock() {
+                if let Some(v) = g.as_mut() {
+                    v.push((std::time::Instant::now(), format!("{} {}", event.metadata().level(), s)));
                 }
             }
         }
